@@ -63,6 +63,8 @@ class Ctx:
 
     def configs(self):
         """Build configurations a rule must hold in: one for quick, three for thorough."""
+        if os.environ.get('VERIF_CONFIGS'):   # debugging aid: analyse the named configurations only
+            return os.environ['VERIF_CONFIGS'].split(',')
         return ['debug'] if self.tier == 'quick' else ['debug', 'release', 'hooks']
 
     # ---- bookkeeping ------------------------------------------------------
